@@ -70,7 +70,10 @@ def judge(case):
                 return 'blanks-between-tokens'
             return 'tokens-or-line-breaks'
         if in_cmt or x.lstrip().startswith(b'*'):
-            return 'inside-multi-line-comment'
+            # a comment that starts its own line is indented with the code; one that trails code keeps a column relative to it
+            k = a.rfind(b'/*', 0, a.find(x) if x else 0)
+            first = a[a.rfind(b'\n', 0, k) + 1:k] if k >= 0 else b'x'
+            return 'inside-multi-line-comment' if first.strip() else 'inside-own-line-multi-line-comment'
         if x.lstrip() == y.lstrip():
             if prev.rstrip().endswith((b';', b'{', b'}', b':', b'*/')) or prev.lstrip().startswith((b'#', b'//')):
                 return 'leading-blanks-of-statement-line'
@@ -138,7 +141,7 @@ def to_case(v):
     # `ignore` defaults and drifts by a column per pass (known findings C05-K2/K3, kept as regress replays); generating it would end
     # every search in one of those
     src, r = layout.render(toks, rng, 'C', dict(p_cmt=rng.choice([0, 0.05, 0.15]), blank=2, nonascii=False, p_multi=0.0, p_tab=0.0,
-                                                multi_cmt=False, cmt_tab=False, p_trail=0.05, indent=rng.choice(['canon', 'random', 'none'])))
+                                                multi_cmt=True, unstarred_cmt=False, box_cmt=0.2, cmt_tab=False, p_trail=0.05, indent=rng.choice(['canon', 'random', 'none'])))
     if cseed % 4 == 3:
         crng = random.Random(cseed)
         cfgd = family.apply_exclusions(registry.random_cfg(crng, ('WS', 'MOD'), (0.02, 0.06)[cseed % 2]), _EX)
